@@ -459,6 +459,21 @@ fn build(g: &Grammar, thorough: bool) -> Vec<Case14> {
         }
         out.push(Case14 { label: label.to_string(), class: format!("ifdata-a2ml-order:{}", label.replace(' ', "-")), text: doc.text() });
     }
+    // a module whose A2ML block the library cannot interpret (reported as a warning when loading non-strictly; the text is kept
+    // as it is) and two module-level IF_DATA blocks of which only one fits a valid A2ML block, next to unsorted elements
+    for (label, a2ml) in [("no IF_DATA block", "struct S { uint; };"), ("unknown type word", "block \"IF_DATA\" strukt { uint; };"), ("valid", "block \"IF_DATA\" taggedunion { \"ZZ\" uint; };")] {
+        for ifdatas in [vec![], vec!["ZZ 1"], vec!["QQ x", "ZZ 1"], vec!["ZZ 1", "QQ x"], vec!["QQ x", "ZZ 1", "QQ y", "ZZ 2"]] {
+            let mut body = format!("    /begin A2ML\n      {a2ml}\n    /end A2ML\n");
+            for i in &ifdatas {
+                body.push_str(&format!("    /begin IF_DATA {i}\n    /end IF_DATA\n"));
+            }
+            for n in ["b", "aa", "ab"] {
+                body.push_str(&format!("    /begin MEASUREMENT {n} \"\" UBYTE NO_COMPU_METHOD 0 0 0 255\n    /end MEASUREMENT\n"));
+            }
+            let text = format!("ASAP2_VERSION 1 71\n/begin PROJECT p \"\"\n  /begin MODULE m \"\"\n{body}  /end MODULE\n/end PROJECT\n");
+            out.push(Case14 { label: format!("A2ML block ({label}) with module-level IF_DATA {ifdatas:?} and unsorted elements"), class: "a2ml-ifdata".into(), text });
+        }
+    }
     // the rich documents of the corpus and HEADER / version elements
     for d in crate::corpus::rich_docs(g) {
         out.push(Case14 { label: d.label.clone(), class: "rich".into(), text: d.doc.text() });
